@@ -56,8 +56,7 @@ impl<T: Debug> WorkStealQueue<T> {
     pub fn push(&self, item: T) {
         self.shared_queue.push(item);
         //add count
-        self.len
-            .store(self.len().saturating_add(1), Ordering::Release);
+        _ = self.len.fetch_add(1, Ordering::AcqRel);
     }
 
     /// Pop an element from the global queue.
@@ -70,8 +69,11 @@ impl<T: Debug> WorkStealQueue<T> {
             match self.shared_queue.steal() {
                 Steal::Success(item) => {
                     // Decrement the count.
-                    self.len
-                        .store(self.len().saturating_sub(1), Ordering::Release);
+                    _ = self
+                        .len
+                        .fetch_update(Ordering::AcqRel, Ordering::Acquire, |v| {
+                            Some(v.saturating_sub(1))
+                        });
                     return Some(item);
                 }
                 Steal::Retry => {}
